@@ -198,6 +198,11 @@ impl PxWorld {
                 let who: u64 = w[1].parse().unwrap();
                 self.ensure(who, OTHER, &big(w[3]));
             }
+            "bad" => {
+                let who: u64 = w[2].parse().unwrap_or(1);
+                self.ensure(who, OTHER, &BigUint::from(1000u32));
+                self.ensure(who, BASE, &BigUint::from(1000u32));
+            }
             _ => {}
         }
         let pre = self.snap();
